@@ -7,4 +7,4 @@ from excel2pycl.src.translators.abstract_translator import AbstractTranslator
 class PatternTokenTranslator(AbstractTranslator):
     @classmethod
     def translate(cls, token: PatternToken, excel: Excel, context: Context) -> str:
-        return f'self._regexp({repr(token.value[0][1:-1])})'
+        return repr(token.value[0][1:-1])
